@@ -152,6 +152,8 @@ def Reachable (c : Cfg) (input : List Nat) (s : St) : Prop := ∃ acts, run c (i
 /-- every goroutine has returned -/
 def Terminal (s : St) : Prop := s.rdDone = true ∧ ∀ w ∈ s.ws, w = .done
 
+instance (s : St) : Decidable (Terminal s) := by unfold Terminal; infer_instance
+
 /-! ### what is read off a log (most recent first) -/
 
 def starts : List Ev → List Nat
